@@ -80,14 +80,13 @@ theorem max_capacity (c : RC) (n : Int) (hn : n > (Gen.maxCapacity : Int)) :
 
 /-- **replay_is_refused_like_a_probe**: a remembered handshake gets ERR_REPLAY_CLIENT from the
     authenticator (for any key list / client IP), and the handler treats every authentication error
-    — cipher, client replay, server replay — by the same branch (absorb, then return; generated fact). -/
+    — cipher, client replay, server replay — by the same branch (absorb, then return: proved about the translated
+    `handleConnection` for every status, C06 `code_unauthenticated_is_absorbed`). -/
 theorem replay_is_refused_like_a_probe (st : Auth.AuthState) (c : RC) (hc : st.cache = some c) (ip : Option Nat)
     (valid : Nat → Bool) (srvSalt : CipherList.Entry → Bool) (hash : CipherList.Entry → UInt32) (e : CipherList.Entry) (i : Nat)
     (hf : (CipherList.lookup st.list ip valid).2 = some (e, i)) (hs : srvSalt e = false)
     (hmem : c.cap ≠ 0 ∧ (hash e ∈ c.active ∨ hash e ∈ c.archive)) :
-    (Auth.authenticate st ip true valid srvSalt hash).2.status = .errReplayClient ∧
-    Gen.Wiring.tcpAuthFailureIsAbsorbed = true := by
-  refine ⟨?_, by decide⟩
+    (Auth.authenticate st ip true valid srvSalt hash).2.status = .errReplayClient := by
   unfold Auth.authenticate
   simp only [Bool.not_true, Bool.false_eq_true, if_false]
   cases hl : CipherList.lookup st.list ip valid with
@@ -99,8 +98,9 @@ theorem replay_is_refused_like_a_probe (st : Auth.AuthState) (c : RC) (hc : st.c
     simp [hs, hc, addNilable, hadd]
 
 /-- **one_cache_for_the_process**: every service of every configuration generation is given the one
-    replay cache of the server object, and the server-salt test precedes the cache (generated facts). -/
-theorem one_cache_for_the_process : Gen.Wiring.singleReplayCache = true ∧ Gen.Wiring.authServerSaltBeforeReplayCache = true := by
+    replay cache of the server object (generated fact); that the server-salt test precedes the cache is proved about
+    the translated authenticator (C08 `code_server_salt_is_refused_before_the_cache`). -/
+theorem one_cache_for_the_process : Gen.Wiring.singleReplayCache = true := by
   decide
 
 /- non-vacuity: concrete non-trivial states meet the hypotheses -/
